@@ -404,6 +404,13 @@ MUTANTS = [
          old="        let result_register = self.next_register(2)?;\n        let lhs_register = result_register + 1;", new="        let result_register = self.next_register(1)?;\n        let lhs_register = result_register + 1;", expect="V-vmproto::KotoVm::run_binary_op_inner::"),
     dict(name="vm_f37_write_op_asks_for_two_registers_only", kind="break", prop="C06", units=["V-vmproto"], file="crates/runtime/src/vm.rs",
          old="        let result_register = self.next_register(3)?;", new="        let result_register = self.next_register(2)?;", expect="V-vmproto::KotoVm::run_write_op_inner::"),
+    # ---- V-codegen2
+    dict(name="codegen2_f39_load_id_reports_a_temporary_nobody_wants", kind="break", prop="C01", units=["V-codegen2"], file="crates/bytecode/src/compiler.rs",
+         old="                self.compile_load_non_local(register, id);\n                self.pop_register()?;\n                result", new="                self.compile_load_non_local(register, id);\n                CompileNodeOutput::with_temporary(register)", expect="V-codegen2::Compiler::compile_load_id::"),
+    dict(name="codegen2_load_id_local_not_copied_to_fixed_register", kind="break", prop="C01", units=["V-codegen2"], file="crates/bytecode/src/compiler.rs",
+         old="                    self.push_op(Op::Copy, &[register, local_register]);\n                    CompileNodeOutput::with_assigned(register)", new="                    CompileNodeOutput::with_assigned(local_register)", expect="V-codegen2::Compiler::compile_load_id::"),
+    dict(name="codegen2_load_id_unknown_name_not_loaded_when_unused", kind="break", prop="C01", units=["V-codegen2"], file="crates/bytecode/src/compiler.rs",
+         old="                let register = self.push_register()?;\n                self.compile_load_non_local(register, id);\n                self.pop_register()?;\n                result", new="                result", expect="V-codegen2::Compiler::compile_load_id::local_in_place_other_names_loaded_by_name"),
     # ---- V-callseq
     dict(name="callseq_piped_value_last", kind="break", prop="C02", units=["V-callseq"], file="crates/bytecode/src/compiler.rs",
          old="""        let arg_offset = if let Some(piped_arg) = piped_arg {
